@@ -13,7 +13,7 @@
    `inlineIf_kind_witness` shows it is inhabited. -/
 import UtapModel.Lemmas.C14
 namespace UtapModel.C14
-open UtapModel.Types UtapModel.TypeClauses
+open UtapModel.Types UtapModel.TypeClauses UtapModel.TypeBasics
 
 /-- the operators the property lists: + * == != && || & | ^ <? >? -/
 def commutativeOps : List BinOp := [.PLUS, .MULT, .EQ, .NEQ, .AND, .OR, .BIT_AND, .BIT_OR, .BIT_XOR, .MIN, .MAX]
